@@ -5,6 +5,8 @@ import MidnightZK.Model.C20.Gadget
 import MidnightZK.Model.C01.Parse
 import MidnightZK.Model.C20.AccIO
 import MidnightZK.Model.C20.VerifyIO
+import MidnightZK.Model.C20.Assign
+import MidnightZK.Model.C20.Aggregator
 /-! Line-protocol handler of property C20. -/
 namespace MidnightZK.C20.Driver
 open MidnightZK MidnightZK.C20
@@ -79,8 +81,58 @@ def accAnswer (ws : List String) : String :=
     | _, _ => "bad-op"
   | _ => "bad-op"
 
+def parseNames? (s : String) : Option (List String) :=
+  if s = "-" then some [] else some (s.splitOn ",")
+
+def fmtNames (l : List String) : String := if l.isEmpty then "-" else ",".intercalate l
+
+/-- Requests about an accumulator carried into a circuit (`AssignedAccumulator::assign`, IVC step).
+Bases are opaque labels here (the operations only move them). -/
+def assignAnswer (ws : List String) : String :=
+  match ws with
+  | ["fbnames", vk, nf, np] =>
+    -- `fixed_base_names(vk, nf, np)` | the same names in `BTreeMap` order
+    match nf.toNat?, np.toNat? with
+    | some nf, some np =>
+      let names := fixedBaseNames vk nf np
+      s!"{fmtNames names}|{fmtNames (sortNames names)}"
+    | _, _ => "bad-op"
+  | ["acc-assign", ll, rl, ln, rn, a] =>
+    match ll.toNat?, rl.toNat?, parseNames? ln, parseNames? rn, parseAcc? a with
+    | some ll, some rl, some ln, some rn, some a =>
+      match a.assign ll rl ln rn with
+      | some a => fmtAcc a
+      | none => "panic"
+    | _, _, _, _, _ => "bad-op"
+  | ["ivc-step", ll, rl, ln, rn, r, pa, ca] =>
+    match ll.toNat?, rl.toNat?, parseNames? ln, parseNames? rn, parseNat? r, parseAcc? pa, parseAcc? ca with
+    | some ll, some rl, some ln, some rn, some r, some pa, some ca =>
+      match ivcStepIn ll rl ln rn pa ca (fr r) with
+      | some a => fmtAcc a
+      | none => "panic"
+    | _, _, _, _, _, _, _ => "bad-op"
+  | "agg-layout" :: names :: r :: accs =>
+    -- sections of the aggregated proof before the PLONK proof, the committed column and the
+    -- name-alignment of the IPA pairing, for the accumulation of the given proof accumulators
+    match parseNames? names, parseNat? r, accs.mapM parseAcc? with
+    | some names, some r, some accs =>
+      match Acc.accumulate accs (fr r) with
+      | some acc =>
+        match aggSectionsOf acc with
+        | some s =>
+          let fb : List (String × Fr) := names.map (fun n => (n, (0 : Fr)))
+          s!"n={s.lhsBases.length} lhs={fmtHexList (s.lhsBases.map (·.val))};{fmtHexList (s.lhsScalars.map (·.val))} m={s.rhsBases.length} rhs={fmtHexList (s.rhsBases.map (·.val))} committed={fmtHexList ((aggCommitted (fun _ => []) acc).map (·.val))} aligned={fmtBool (aggAligned acc fb)}"
+        | none => "panic"
+      | none => "panic"
+    | _, _, _ => "bad-op"
+  | _ => "bad-op"
+
 def answer (line : String) : String :=
   match words line with
+  | "fbnames" :: _ => assignAnswer (words line)
+  | "acc-assign" :: _ => assignAnswer (words line)
+  | "ivc-step" :: _ => assignAnswer (words line)
+  | "agg-layout" :: _ => assignAnswer (words line)
   | "msm-awr" :: _ => accAnswer (words line)
   | "msm-eval" :: _ => accAnswer (words line)
   | "msm-collapse" :: _ => accAnswer (words line)
@@ -95,6 +147,11 @@ def answer (line : String) : String :=
       else if side = "P" then " ".intercalate ((proverSchedule len).map IpaEv.tok)
       else if side = "V" then " ".intercalate ((verifierScheduleIpa len).map IpaEv.tok)
       else "bad-op"
+    | none => "bad-op"
+  | ["ipa-labels", len] =>
+    -- contents of the transcript operations of `ipa_prove` / `ipa_verify` (same for both sides)
+    match len.toNat? with
+    | some len => if !isPow2 len then "panic" else " ".intercalate ((labelledSchedule len).map IpaLab.tok)
     | none => "bad-op"
   | ["ipa-vscalars", r, s, us] =>
     -- scalars of the final MSM of `ipa_verify`
